@@ -8,6 +8,7 @@ import (
 	"go/constant"
 	"go/token"
 	"go/types"
+	"math"
 	"math/big"
 	"strings"
 )
@@ -647,6 +648,38 @@ func (fx *FuncCtx) floatOp(op token.Token, a, b Term, s Sort, node ast.Node) Val
 		if fx.real {
 			return app(s, map[string]string{"fadd": "+", "fsub": "-", "fmul": "*", "fdiv": "/"}[n], a, b)
 		}
+		// arithmetic on two literals is folded with Go's own (IEEE 754) arithmetic: constants
+		// such as math.Sqrt(safmax)/3 then have a definite, non-zero, non-NaN value
+		if x, ok := floatLitValue(a); ok {
+			if y, ok := floatLitValue(b); ok {
+				var r float64
+				if s == SF32 {
+					x32, y32 := float32(x), float32(y)
+					switch n {
+					case "fadd":
+						r = float64(x32 + y32)
+					case "fsub":
+						r = float64(x32 - y32)
+					case "fmul":
+						r = float64(x32 * y32)
+					case "fdiv":
+						r = float64(x32 / y32)
+					}
+				} else {
+					switch n {
+					case "fadd":
+						r = x + y
+					case "fsub":
+						r = x - y
+					case "fmul":
+						r = x * y
+					case "fdiv":
+						r = x / y
+					}
+				}
+				return fx.floatConst(r, s)
+			}
+		}
 		fn := n + sfx
 		fx.declFun(fn, []Sort{s, s}, s)
 		return app(s, fn, a, b)
@@ -1168,4 +1201,31 @@ func (fx *FuncCtx) ifacePtrEq(op token.Token, iv IfaceV, p PtrV, pt types.Type) 
 		return Not(eq)
 	}
 	return eq
+}
+
+// floatLitValue recognises the float literals produced by f64Lit / f32Lit.
+func floatLitValue(t Term) (float64, bool) {
+	switch {
+	case strings.HasPrefix(t.S, "fc64_") && len(t.S) == 21:
+		var bits uint64
+		if _, err := fmt.Sscanf(t.S[5:], "%016x", &bits); err == nil {
+			return math.Float64frombits(bits), true
+		}
+	case strings.HasPrefix(t.S, "fc32_") && len(t.S) == 13:
+		var bits uint32
+		if _, err := fmt.Sscanf(t.S[5:], "%08x", &bits); err == nil {
+			return float64(math.Float32frombits(bits)), true
+		}
+	case strings.HasPrefix(t.S, "(fp #b") && t.Sort == SF64:
+		var sgn, ex, man uint64
+		if _, err := fmt.Sscanf(t.S, "(fp #b%b #b%b #x%x)", &sgn, &ex, &man); err == nil {
+			return math.Float64frombits(sgn<<63 | ex<<52 | man), true
+		}
+	case strings.HasPrefix(t.S, "(fp #b") && t.Sort == SF32:
+		var sgn, ex, man uint32
+		if _, err := fmt.Sscanf(t.S, "(fp #b%b #b%b #b%b)", &sgn, &ex, &man); err == nil {
+			return float64(math.Float32frombits(sgn<<31 | ex<<23 | man)), true
+		}
+	}
+	return 0, false
 }
